@@ -5,10 +5,16 @@ Every function name says what the rule must conclude:
   ok_*     order-insensitive consumption                                          -> silent
   exempt_* order-sensitive consumption of a set of ints                           -> exempt
   addr_*   use of id()/hash()                                                      -> finding (address-dependent)
+  hist_*   shared mutable state mutated across calls                               -> finding (process-history)
   clock_*  use of time / random                                                   -> finding (nondeterministic-source)
 """
 import time
 import random
+from functools import lru_cache
+
+_MEMO = {}
+_REGISTRY = []
+FLAG_NAMES = {1: 'public', 2: 'private'}
 
 
 class N:
@@ -141,3 +147,54 @@ def clock_stamp():
 def clock_shuffle(items):
     random.shuffle(items)
     return items
+
+
+@lru_cache(maxsize=None)
+def hist_cached_list(flags):
+    return [FLAG_NAMES[f] for f in (1, 2) if f & flags]
+
+
+def _uses_cached(flags):
+    names = hist_cached_list(flags)
+    names.remove('public')
+    return names
+
+
+def hist_dict_memo(flags):
+    if flags not in _MEMO:
+        _MEMO[flags] = [FLAG_NAMES[f] for f in (1, 2) if f & flags]
+    return _MEMO[flags]
+
+
+def _uses_memo(flags):
+    hist_dict_memo(flags).append('synthetic')
+
+
+def hist_registry(name):
+    _REGISTRY.append(name)
+    return len(_REGISTRY)
+
+
+def hist_default(item, acc=[]):
+    acc.append(item)
+    return acc
+
+
+@lru_cache(maxsize=None)
+def ok_cached_tuple(flags):
+    return tuple(FLAG_NAMES[f] for f in (1, 2) if f & flags)
+
+
+@lru_cache(maxsize=None)
+def _ok_cached(flags):
+    return [FLAG_NAMES[f] for f in (1, 2) if f & flags]
+
+
+def ok_cached_copy(flags):
+    names = list(_ok_cached(flags))
+    names.append('x')
+    return names
+
+
+def ok_constant_lookup(flag):
+    return FLAG_NAMES.get(flag, 'unknown')
